@@ -1764,10 +1764,11 @@ class InTablePhase(Phase):
                                {"startName": "table", "endName": "table"})
         # The token is ignored only if there is no table to close (which
         # can only happen when parsing a fragment)
-        ignored = not self.tree.elementInScope("table", variant="table")
+        if not self.tree.elementInScope("table", variant="table"):
+            assert self.parser.innerHTML
+            return
         self.parser.phase.processEndTag(impliedTagToken("table"))
-        if not ignored:
-            return token
+        return token
 
     def startTagStyleScript(self, token):
         return self.parser.phases["inHead"].processStartTag(token)
